@@ -129,6 +129,27 @@ def run(seed, tier, driver):
     omut = []
     for b in opens:
         omut += mutations(r, b, tier)
+    # every capability with 0..4 elements of its value format (and one octet more / less): the value loops of Open.parse
+    units = {1: 4, 2: 0, 5: 6, 64: 4, 65: 4, 66: 3, 69: 4, 70: 0, 71: 7, 73: 5, 128: 0, 131: 1, 255: 2}
+    for code, unit in sorted(units.items()):
+        lens = set()
+        for n in range(0, 5):
+            for d in (-1, 0, 1):
+                if 0 <= n * unit + d <= 60:
+                    lens.add(n * unit + d)
+        if code == 64:
+            lens |= {2, 6, 10, 14, 3, 7}
+        for ln in sorted(lens):
+            for fill in (0, 1):
+                if code in (1, 69, 71, 5):
+                    el = {1: bytes([0, 1, 0, 1]), 69: bytes([0, 1, 1, 3]), 71: bytes([0, 1, 1, 0, 0, 0, 10]), 5: bytes([0, 1, 0, 1, 0, 2])}[code]
+                    v = (el * 8)[:ln] if fill == 0 else bytes((7 * i + code) & 255 for i in range(ln))
+                else:
+                    v = bytes((fill * 255) & 255 for _ in range(ln)) if fill == 0 else bytes((7 * i + code) & 255 for i in range(ln))
+                capv = bytes([code, ln]) + v
+                for wrap in (bytes([2, len(capv)]) + capv, bytes([2, len(capv) + 2]) + capv + bytes([2, 0])):
+                    omut.append(struct.pack('!BHHIB', 4, 65002, 180, 0x0a000002, len(wrap)) + wrap)
+    res.stats.hit('open_capability_lengths', len(omut))
     for name, fn, op, extra in (('Open.parse', I.open_parse, 'open.parse', small + opens + omut),
                                 ('Notification.parse', I.notif_parse, 'notif.parse', small),
                                 ('KeepAlive.parse', I.keepalive_parse, 'keepalive.parse', small[:300]),
